@@ -240,6 +240,7 @@ class Pool():
             self._pending = 0
             self._pending_per_worker = { worker.id: [] for worker in self.workers }
             self._retries = []
+            orphaned = {} # worker id -> inputs which were still pending when the worker's death was handled
             ret = []
 
             def next_inputs(worker):
@@ -278,6 +279,7 @@ class Pool():
                 if self._retry:
                     self._retries.extend(self._pending_per_worker[worker.id])
 
+                orphaned[worker.id] = list(self._pending_per_worker[worker.id])
                 self._pending -= len(self._pending_per_worker[worker.id])
                 self._pending_per_worker[worker.id].clear()
                 self._closed.add(worker.id)
@@ -362,6 +364,27 @@ class Pool():
                     logger.debug('Trying to enqueue new data for {}', worker)
                     try_enqueue(worker)
 
+            def handle_late_result(worker, result):
+                ''' Handle a result read from a worker whose death has already been handled
+                    (it died while enqueueing, with results of earlier inputs still unread).
+                '''
+                inputs = orphaned.get(worker.id)
+                if not inputs:
+                    return
+                inp = inputs.pop(0)
+                if self._retry:
+                    for i, retry_inp in enumerate(self._retries):
+                        if retry_inp is inp:
+                            del self._retries[i]
+                            break
+                    else:
+                        # the input has already been handed to another worker which will deliver its result
+                        return
+                if worker_callback:
+                    worker_callback(worker, 'finished', result)
+                if return_results:
+                    ret.append(result)
+
             def first_enqueue():
                 for _ in range(worker_extra_pending_inputs + 1):
                     for worker in self._workers.values():
@@ -408,6 +431,8 @@ class Pool():
                     if not flag:
                         if worker.id not in self._closed: # if a worker died while enqueueing, its death has already been handled but we will (possibly) end up here
                             handle_death(worker)
+                    elif worker.id in self._closed:
+                        handle_late_result(worker, result)
                     else:
                         handle_new_result(worker, result)
 
